@@ -37,6 +37,14 @@ def families(tier, seed):
             out.append(_c(f'_flatten_previous expr strong={strong} pre={pre}', pn.h_previous_expr(strong, pre)))
         for op in ('-[]', '-<>'):
             out.append(_c(f'Unary {op} pre={pre}', pn.h_hist_once(op, pre)))
+    # the `until` mode flag must not change the translation of PAST operators
+    out.append(_c('_flatten_since (until=True)', pn.h_since('other', until=True)))
+    for op in ('-[]', '-<>'):
+        out.append(_c(f'Unary {op} (until=True)', pn.h_hist_once(op, 'other', until=True)))
+    for strong in (False, True):
+        out.append(_c(f'_flatten_previous expr strong={strong} (until=True)', pn.h_previous_expr(strong, 'empty', until=True)))
+        for const in ('true', 'True', 'false', 'False'):
+            out.append(_c(f'previous of constant strong={strong} {const}', pn.h_previous_const(strong, const)))
     for strong in (False, True):
         for pk in ('absent', 'weak', 'strong'):
             out.append(_c(f'previous of variable strong={strong} pre-state={pk}', pn.h_previous_var(strong, pk)))
@@ -69,6 +77,8 @@ def families(tier, seed):
     L = 5 if tier == 'quick' else 7
     for fml in pn.E2E:
         out.append(dict(name=f'translate e2e L={L} {fml}', run=pn.h_translate_e2e(fml, L), label='bounded'))
+    for fml in pn.E2E_UNTIL:
+        out.append(dict(name=f'translate e2e (until=True) L={L} {fml}', run=pn.h_translate_e2e(fml, L, until=True), label='bounded'))
     return out
 
 
